@@ -160,7 +160,7 @@ def vec_acc(ctx, v, variant):
     m = bare_model(nl)
     inject_geometry(m, [50 + 2 * i for i in range(nl + 1)])
     dens = m.densityProfile
-    wn = WN[:nw]
+    wn = WN[:nw] if nw <= len(WN) else 1000.0 + 37.0 * np.arange(nw)      # round 6: grids of 8 .. 64 points (MC_TransHole)
     ltab = [np.array(L[j][:nl - j], dtype=float) * U for j in range(nl)]
     m.compute_path_length_old = lambda dz, _l=ltab: _l        # inject the chord table (instance only)
     contribs = []
@@ -1098,6 +1098,18 @@ def run(ctx):
                                also=flagcalls)
     # round 5: the magnitude of the mixing ratio
     abvecs = check_with_mutants(ctx, 'abund', 'MC_TransAbund', 'MC_TransAbund_%s.cfg' % tier, AB_REFUTED, ('Evaluate',), 'ABVEC')
+    # round 6: grid size x position of the single thin wavenumber (spec/MC_TransHole.tla); the sub-sampled minimum is refuted
+    hres = ctx.check_spec('hole', 'MC_TransHole', 'MC_TransHole_%s.cfg' % tier, need_actions=('Evaluate',), workers=2)
+    hvecs = uniq(hres.tagged('VEC'))
+    if len(hvecs) < 500 or not any(v['out']['tau'] != v['out']['full'] for v in hvecs) or \
+            len({(v['inp']['p'] - 1) % 12 for v in hvecs if v['inp']['n'] >= 12}) < 12:
+        raise Machinery('MC_TransHole exports too few grid-size / thin-position vectors (%d)' % len(hvecs))
+    from ..core import run_tlc
+    for st in (2, 3, 4):
+        r = run_tlc('MC_TransHole', 'MC_TransHole_refute_stride%d.cfg' % st, workers=1, allow_violation=True)
+        ctx.add_tlc('refute-exit-on-every-%d-th-wavenumber' % st, r)
+        if r.violated != 'ExitOnlySaturatedEverywhere':
+            raise Machinery('expected counterexample missing: minimum over every %d-th wavenumber not refuted (%r)' % (st, r.violated))
     ctx.exhaustive = True
     vecs = []
     for cfg in ('EX_Trans_geo.cfg', 'EX_Trans_acc.cfg', 'EX_Trans_acc2.cfg', 'EX_Trans_abs.cfg'):
@@ -1108,7 +1120,7 @@ def run(ctx):
             if k not in seen:
                 seen.add(k)
                 vecs.append(v)
-    ncal = calibrate(vecs + kvecs + abvecs)
+    ncal = calibrate(vecs + kvecs + abvecs + hvecs)
     ctx.note('oracle calibration: harness evaluator equals TLC exactly on %d exported vectors' % ncal)
     reset_caches()
     for v in vecs:
@@ -1119,6 +1131,8 @@ def run(ctx):
         else:
             vec_abs(ctx, v)
     ctx.add_sample(dict(vector=vecs[len(vecs) // 2]))
+    for v in hvecs:
+        vec_acc(ctx, v, 'grid%d:thin@%d' % (v['inp']['n'], (v['inp']['p'] - 1) % 12))
     try:
         for v in kvecs:
             vec_kd(ctx, v)
